@@ -676,8 +676,16 @@ func (s *Service) handleBackup(w http.ResponseWriter, r *http.Request, qp QueryP
 	}
 	addBackupFormatHeader(w, qp)
 
-	addr, err := s.proxy.Backup(r.Context(), br, w, makeCredentials(r), qp.Timeout(defaultTimeout), qp.Redirect())
+	bw := &backupWriter{w: w}
+	addr, err := s.proxy.Backup(r.Context(), br, bw, makeCredentials(r), qp.Timeout(defaultTimeout), qp.Redirect())
 	if err != nil {
+		if bw.n > 0 {
+			// Part of the backup has already been sent, along with a success status.
+			// All that can be done now is abort the response, so the client does not
+			// take what it received for a complete backup.
+			s.logger.Printf("backup failed after %d bytes were sent: %s", bw.n, err.Error())
+			panic(http.ErrAbortHandler)
+		}
 		if errors.Is(err, proxy.ErrNotLeader) {
 			s.DoRedirect(w, r, qp)
 			return
@@ -701,6 +709,19 @@ func (s *Service) handleBackup(w http.ResponseWriter, r *http.Request, qp QueryP
 	w.Header().Set(ServedByHTTPHeader, addr)
 
 	s.lastBackup = time.Now()
+}
+
+// backupWriter counts the bytes of a backup written to the HTTP response.
+type backupWriter struct {
+	w io.Writer
+	n int64
+}
+
+// Write writes to the underlying writer.
+func (b *backupWriter) Write(p []byte) (int, error) {
+	n, err := b.w.Write(p)
+	b.n += int64(n)
+	return n, err
 }
 
 // handleLoad loads the database from the given SQLite database file or SQLite dump.
